@@ -74,6 +74,15 @@ class Ctx:
             self.say('translator:', self.tables_msg)
             if rc2 != 0:
                 self.problems.append(('translator', self.tables_msg))
+        # twin / forwarding tables of C17 (kept fresh on every run; only C17 reports on them)
+        rc3, out3, dt3 = sh([sys.executable, os.path.join(VERIF, 'tools', 'c17.py'), '--tables', REPO, os.path.join(COQ, 'gen')])
+        self.twins_msg = out3.strip()
+        if self.pid == 'C17':
+            self.say('translator:', self.twins_msg.replace('\n', ' | ')[:600])
+            if rc3 != 0:
+                self.problems.append(('translator', self.twins_msg))
+            elif 'TWIN DIVERGES' in out3 or 'FORWARD BROKEN' in out3:
+                self.problems.append(('tables', 'the twin / forwarding tables regenerated from the source violate the rules of TwinSpec.v:\n' + '\n'.join(l for l in out3.split('\n') if 'DIVERGES' in l or 'BROKEN' in l)))
         return rc == 0
 
     # ------------------------------------------------------------ Coq
